@@ -467,6 +467,41 @@ func (oa *originAnalysis) projectedOrigins(p *packages.Package, fd *ast.FuncDecl
 		base = ast.Unparen(u.X)
 	}
 	switch x := base.(type) {
+	case *ast.CallExpr:
+		// a constructor of the module: the field of what it returns, when every return hands back a keyed literal (or a
+		// local that is one)
+		fn := calleeOf(info, x)
+		if fn == nil {
+			return nil, false
+		}
+		cd := oa.cg.Decl[fn.Origin()]
+		cp := oa.cg.PkgOf[fn.Origin()]
+		if cd == nil || cd.Body == nil || cp == nil {
+			return nil, false
+		}
+		nret := 0
+		okAll := true
+		ast.Inspect(cd.Body, func(n ast.Node) bool {
+			if _, isLit := n.(*ast.FuncLit); isLit {
+				return false
+			}
+			if rs, ok := n.(*ast.ReturnStmt); ok && len(rs.Results) >= 1 {
+				nret++
+				m, ok := oa.projectedOrigins(cp, cd, rs.Results[0], field, depth+1, busy)
+				if !ok {
+					okAll = false
+					return true
+				}
+				for t := range m {
+					out[t] = true
+				}
+			}
+			return true
+		})
+		if nret == 0 || !okAll {
+			return nil, false
+		}
+		return out, true
 	case *ast.CompositeLit:
 		st, ok := info.TypeOf(x).Underlying().(*types.Struct)
 		if !ok {
